@@ -35,8 +35,8 @@ ASSUMPTIONS = ['fragment streams are well-formed as in C06 (command fragments fi
 REQUIRED = ['oracle.completion-exact', 'oracle.message-content', 'oracle.file-backed', 'oracle.via-provider',
             'oracle.consecutive-messages']
 
-MAXN = {'quick': 7, 'thorough': 10}
-NRANDOM = {'quick': 1500, 'thorough': 20000}
+MAXN = {'quick': 7, 'thorough': 11}
+NRANDOM = {'quick': 1500, 'thorough': 100000}
 TS = {'implicit': '1.2.840.10008.1.2', 'explicit': '1.2.840.10008.1.2.1',
       'bigendian': '1.2.840.10008.1.2.2'}
 
